@@ -30,3 +30,52 @@ def run(ck, F, rule="C07.null-page-counts-values"):
         ck.bad(rule, "null_page", "update_column_offset_index decides null_page from %s: the null count (null values) must be compared with the number of values in the "
                "page (num_buffered_values), never with its number of rows -- for a repeated column a page holding non-null values is otherwise written as a null page and "
                "pruned by readers" % sorted(fields), "%s:%s" % (fn["file"], fn["line"]))
+
+
+def run_exact_polarity(ck, F, rule="C07.exact-flag-polarity"):
+    import re
+    from .mirlib import callee, op_local
+    ck.rule(rule, "wherever statistics are rebuilt (thrift decoding, conversions), `with_min_is_exact(x)` takes x from an `is_min_value_exact` source and "
+            "`with_max_is_exact(x)` from an `is_max_value_exact` source, never from the opposite one: a swapped flag reports a truncated bound as attained", floor=4)
+    crate = F.crate("parquet")
+    for fn in crate.fns:
+        if "mir" not in fn:
+            continue
+        b = Body(fn)
+        for bb, t in b.calls():
+            m = re.search(r"with_(max|min)_is_exact$", callee(t) or "")
+            if not m or len(t["args"]) < 2:
+                continue
+            l = op_local(t["args"][1])
+            if l is None:
+                continue
+            side = m.group(1)
+            other = "min" if side == "max" else "max"
+            fields = set()
+            for r in flow.influence_roots(b, l):
+                for x in r[2:]:
+                    fields.add(str(x))
+            # field names read anywhere in the backward slice (the statistics struct is usually a local bound by a pattern, not a parameter)
+            from .mirlib import op_place, rvalue_operands
+            locs, calls = b.back_slice(l)
+            for x in locs:
+                for d in b.defs().get(x, []):
+                    if d[0] != "s":
+                        continue
+                    ps = [op_place(o) for o in rvalue_operands(d[3])]
+                    if d[3][0] in ("ref", "rawptr"):
+                        ps.append(d[3][2])
+                    for pl in ps:
+                        if pl:
+                            for e in pl[1]:
+                                if isinstance(e, list) and e[0] == "f" and e[2]:
+                                    fields.add(str(e[2]))
+            own = any(re.search(r"is_%s(_value)?_exact" % side, f) for f in fields)
+            opp = any(re.search(r"is_%s(_value)?_exact" % other, f) for f in fields)
+            key = "%s -> with_%s_is_exact" % (flow.norm(fn["id"]), side)
+            if opp and not own:
+                ck.bad(rule, key, "%s passes a value derived from is_%s_value_exact to with_%s_is_exact: the exactness flags of the two bounds are swapped" % (fn["id"], other, side), b.loc(bb))
+            elif own or opp:
+                ck.ok(rule, key, "flag comes from the matching field")
+            else:
+                ck.ok(rule, key, "flag not taken from a statistics field (constant or computed)", nontrivial=False)
